@@ -228,7 +228,7 @@ def run(tier: str, seed: int) -> Result:
     for i, cfg in enumerate(cfgs):
         noise, sd, depth, bound = cfg[:4]
         sub_raises = cfg[4] if len(cfg) > 4 else None
-        left = max(5.0, (t_end - time.monotonic()) / (len(cfgs) - i))
+        left = max(5.0, (t_end - time.monotonic()) / min(3, len(cfgs) - i))  # most configurations finish far below their share: a hungry one may take a third of what is left
         st = explore_parallel(factory, (noise, sd, sub_raises), depth=depth, bound=bound, budget_s=left, split_depth=1)
         per_cfg.append({"noise": noise, "seed_state": sd, "failing_subscriber": sub_raises, "depth": depth, "deviation_bound": bound, "executions": st.executions,
                         "states": st.states, "transitions": st.transitions, "time_capped": st.time_capped,
